@@ -6,7 +6,7 @@
    Not stated here: "the reported gene structure does not depend on the sequencing depth".  In the model the structure
    stage (CnSpec.estimate_cn) takes the normalised vector as its input, so it follows from [C07_norm_scale_invariant]
    for everything except _filter_configs, which uses the ABSOLUTE parameter min_coverage (DESIGN.md, C07). *)
-From Aldy Require Import Base Consts Norm NormProofs.
+From Aldy Require Import Base Consts Norm NormProofs Exprs_norm Tied_norm.
 Open Scope Z_scope.
 
 (* every count multiplied by k > 0: every normalised region value is unchanged *)
@@ -86,3 +86,23 @@ Example C07_example_self : o_nres (normalize_against ex_regions (40, 50) (pileup
 Proof. vm_compute. reflexivity. Qed.
 Example C07_example_empty : normalize 8 [] (60, 70) (pileup ex_reads) (pileup ex_reads) = NNeutralEmpty.
 Proof. vm_compute. reflexivity. Qed.
+
+(* ================================================================= tie to the current source tree
+   The decision expressions below are regenerated from /repo's Python AST on every run (harness/gen_exprs.py -> gen/Exprs_norm.v);
+   each theorem says that the model's definition IS that expression, for all arguments.  A change of the expression in the code
+   breaks the obligation even when no sampled input distinguishes old and new behaviour. *)
+Theorem C07_tie_region_value : forall ratio s pd,
+  region_value ratio s pd = let p := (pd / norm_profile_div)%Q in if Qeqb p 0 then 0%Q else norm_region ratio (inZ s) p.
+Proof. exact norm_region_tied. Qed.
+Goal True. idtac "ASSUME C07_tie_region_value". Abort.
+Print Assumptions C07_tie_region_value.
+
+Theorem C07_tie_ratio : forall nv regions cn dg dn, range_sum dn (fst cn) (snd cn) <> 0%Z ->
+  Qeqb (norm_ratio nv (inZ (range_sum dn (fst cn) (snd cn)))) 0 = false ->
+  normalize nv regions cn dg dn =
+  NOk (map (fun rp => ((nr_gene (fst rp), nr_name (fst rp)),
+                       region_value (norm_ratio nv (inZ (range_sum dn (fst cn) (snd cn))))
+                                    (range_sum dg (nr_start (fst rp)) (nr_end (fst rp))) (snd rp))) regions).
+Proof. exact norm_ratio_tied. Qed.
+Goal True. idtac "ASSUME C07_tie_ratio". Abort.
+Print Assumptions C07_tie_ratio.
